@@ -62,6 +62,9 @@ type registry struct {
 	clients map[string]*vClient // last constructed per key
 	// stopDelay: how long a client's Run keeps going after Stop (a client that is slow to shut down)
 	stopDelay time.Duration
+	// firstPointsDelay: the first Points call of this registry's clients takes that long (a busy client)
+	firstPointsDelay time.Duration
+	delayed          bool
 }
 
 func newRegistry(name string) *registry {
@@ -153,6 +156,16 @@ func (c *vClient) Stop(error) {
 }
 
 func (c *vClient) Points(id string, pts []data.Point) {
+	if d := c.reg.firstPointsDelay; d > 0 {
+		// a client that is busy while it handles the first batch it is told of
+		c.reg.mu.Lock()
+		first := !c.reg.delayed
+		c.reg.delayed = true
+		c.reg.mu.Unlock()
+		if first {
+			time.Sleep(d)
+		}
+	}
 	c.reg.add(vEvent{kind: "points", key: c.key, node: id, pts: append(data.Points{}, pts...)})
 	c.mu.Lock()
 	if err := data.MergePoints(id, pts, &c.cfg); err != nil {
